@@ -68,9 +68,25 @@ def gen_bounds_string(rng):
     nums = [gen_number(rng) for _ in range(4)]
     sep = lambda: rng.choice([',', ',', ', ', ' ,', ' , '])  # noqa: E731
     good = nums[0] + sep() + nums[1] + sep() + nums[2] + sep() + nums[3]
-    kind = rng.choice(['good', 'good', 'five', 'three', 'junk_tail', 'junk_field', 'exponent', 'ws_lead', 'ws_trail', 'semicolon', 'double_comma', 'plus'])
+    kind = rng.choice(['good', 'good', 'good', 'good_ws', 'five', 'three', 'junk_tail', 'junk_field', 'exponent', 'ws_lead', 'ws_trail', 'semicolon', 'double_comma', 'plus',
+                       'inner_space', 'inner_space', 'space_separated'])
     if kind == 'good':
         return good, 'bounds'
+    if kind == 'good_ws':
+        ws = lambda: rng.choice([' ', '  ', '\t', ''])  # noqa: E731
+        return nums[0] + ws() + ',' + ws() + nums[1] + ws() + ',' + ws() + nums[2] + ws() + ',' + ws() + nums[3], 'bounds'
+    if kind == 'inner_space':
+        # white space *inside* a field: '1 0,2,3,4' is not four numbers
+        k = rng.randrange(4)
+        n = nums[k]
+        pos = rng.randint(1, max(1, len(n) - 1))
+        nums2 = nums[:]
+        nums2[k] = n[:pos] + rng.choice([' ', '\t']) + n[pos:]
+        if len(n) < 2:
+            nums2[k] = n + ' 0'
+        return ','.join(nums2), 'not_bounds'
+    if kind == 'space_separated':
+        return ' '.join(nums), 'not_bounds'
     if kind == 'five':
         return good + ',' + gen_number(rng), 'not_bounds'
     if kind == 'three':
@@ -170,6 +186,8 @@ class CliSim:
                         y0, y1 = sorted([round(p[1] - rng.uniform(0, 1), 4), round(q[1] + rng.uniform(0, 1), 4)])
                         sep = rng.choice([',', ', ', ' , '])
                         inv['bounds_string'] = sep.join(self._fmt(rng, v) for v in (x0, y0, x1, y1))
+                        # argparse takes a bounds string with a leading '-' for an option unless the user writes `--` first
+                        inv['dashdash'] = inv['bounds_string'].startswith('-') and rng.random() < 0.6
                 elif cmd == 'extract-points':
                     pts, bbox = clipsim.cell_points(world)
                     real = [p for p in pts if p is not None]
@@ -188,15 +206,24 @@ class CliSim:
                             elif real:
                                 p = rng.choice(real)
                                 rows.append([p[0], p[1], 'hit'])
-                        else:
+                        elif r < 0.92:
                             rows.append([bbox[2] + rng.uniform(5, 9), bbox[3] + rng.uniform(5, 9), 'miss'])
+                        else:
+                            rows.append([None, None, ''])     # an all-empty CSV row: a point at (NaN, NaN), which misses
                     cols = rng.choice([['lon', 'lat'], ['lon', 'lat'], ['x_pos', 'y_pos']])
                     inv.update({'rows': rows, 'cols': cols, 'policy': rng.choice([None, 'error', 'drop', 'fill']),
                                 'dim': rng.choice([None, None, 'station']), 'out': out_name('.nc')})
                 else:
                     fmt = rng.choice(list(FORMAT_EXT))
                     explicit = rng.random() < 0.5
-                    ext = rng.choice(FORMAT_EXT[fmt]) if not explicit or rng.random() < 0.7 else rng.choice(['.dat', '.out'])
+                    if not explicit or rng.random() < 0.5:
+                        ext = rng.choice(FORMAT_EXT[fmt])
+                    elif rng.random() < 0.5:
+                        ext = rng.choice(['.dat', '.out'])
+                    else:
+                        # an explicit --format must win over whatever the extension suggests
+                        other = rng.choice([f for f in FORMAT_EXT if f != fmt])
+                        ext = rng.choice(FORMAT_EXT[other])
                     inv.update({'fmt': fmt, 'explicit': explicit, 'out': out_name(ext)})
                 if inv['user_fault'] is None and rng.random() < 0.3:
                     inv['faults'] = self._storage_fault(rng, cmd, inv)
@@ -318,11 +345,13 @@ class CliSim:
                 geom_arg = '{"type": "Polygon", "coordinates": "nope"}'
             elif uf == 'geom_garbage':
                 geom_arg = 'definitely not a geometry'
-            argv += [input_path, geom_arg, out]
             if inv.get('work_dir'):
                 wd = os.path.join(scratch, inv['work_dir'])
                 os.makedirs(wd, exist_ok=True)
                 argv += ['--work_dir', wd]
+            if inv.get('dashdash'):
+                argv += ['--']
+            argv += [input_path, geom_arg, out]
         elif cmd == 'extract-points':
             csv = os.path.join(scratch, inv['out'] + '.points.csv')
             cols = inv['cols']
@@ -332,11 +361,15 @@ class CliSim:
                 header = [cols[0], cols[1], 'name']
             rows = [list(r) for r in inv['rows']]
             if uf == 'points_outside_error':
-                rows.append([rows[0][0] + 500.0, rows[0][1] + 500.0, 'miss'])
+                base = next((r for r in rows if r[0] is not None), [0.0, 0.0, ''])
+                rows.append([base[0] + 500.0, base[1] + 500.0, 'miss'])
             with open(csv, 'w') as f:
                 f.write(','.join(header) + '\n')
                 for r in rows:
-                    f.write(f'{r[0]!r},{r[1]!r},{r[2]}\n')
+                    if r[0] is None:
+                        f.write(',,\n')
+                    else:
+                        f.write(f'{r[0]!r},{r[1]!r},{r[2]}\n')
             if uf == 'csv_missing':
                 csv = os.path.join(scratch, 'no_such_points.csv')
             argv += [input_path, csv, out]
@@ -503,7 +536,11 @@ class CliSim:
                 if not stderr.strip():
                     out.violate('C20', 'failure-no-message', None, f'`{label}` exited {status} without any message')
                 return True
-            out.violate('C20', 'cli-fails-library-succeeds', r.get('frame'), f'`{label}` exited {status} ({stderr.strip()[-300:]}) but the library call succeeds')
+            clause = 'cli-fails-library-succeeds'
+            if inv['cmd'] == 'clip' and inv.get('geom_form') == 'bounds' and not uf and inv['bounds_string'].startswith('-') \
+                    and not inv.get('dashdash') and status == 2 and 'rgument' in stderr:
+                clause = 'bounds-leading-minus-rejected'
+            out.violate('C20', clause, r.get('frame'), f'`{label}` exited {status} ({stderr.strip()[-300:]}) but the library call succeeds')
             return True
         if refres.get('raised'):
             out.violate('C20', 'cli-succeeds-library-fails', None, f'`{label}` exited 0 but the library call raises {refres["raised"]}')
@@ -712,8 +749,7 @@ def _reference_lifetime(ctx, inv, p, scratch):
     result = {}
     try:
         if cmd == 'clip':
-            i = argv.index('clip')
-            input_path, geom_arg, _ = argv[i + 1], argv[i + 2], argv[i + 3]
+            input_path, geom_arg, _ = argv[-3], argv[-2], argv[-1]
             sb = strict_bounds(geom_arg)
             if sb is not None:
                 geom = shapely.geometry.box(*sb)
